@@ -64,7 +64,7 @@ def cases(tier, seed):
     sp = [(2, 1), (2, 2)] if tier == "quick" else [(2, 1), (2, 2), (4, 1), (3, 2), (2, 4)]
     for spp, P in sp:
         for T in Ts:
-            if (P + 1) * spp + 2 > T or (tier == "quick" and T != 12) or (T == 40 and (spp, P) != (2, 2)):
+            if (P + 1) * spp + 2 > T or (tier == "quick" and T != 12) or (T == 40 and (spp, P) != (2, 2)) or (spp == 3 and T != 12):
                 continue
             for mn in ("none", "given"):
                 for mx in ("none", "given"):
@@ -364,7 +364,8 @@ def _detector(c, case):
     # guided witness search first (a sub-domain: fixed non-periodic trace, threshold 1e-3): finding a non-converged trace
     # under the sqrt axioms can exhaust z3 on the full domain; an unsat answer here is just an obligation on the sub-domain
     guide = [thr == Fraction(1, 1000)] + [R[i, 0] == Fraction((i * i) % 5 + i % 3, 4) for i in range(T)]
-    ok = c.prove("t >= max_steps => stop (fixed non-periodic trace)", z3.Implies(t >= mx_eff, z3.Not(cont)), assume + guide, replay, key=kmax)
+    pin = [t == T - 1] + ([mx == T - 2] if mx_given else [])  # one concrete window: z3 only has to evaluate the sqrt terms
+    ok = c.prove("t >= max_steps => stop (fixed non-periodic trace, t = T-1, max_steps = T-2)", z3.Implies(t >= mx_eff, z3.Not(cont)), assume + guide + pin, replay, key=kmax)
     if ok:
         c.prove("t >= max_steps => stop", z3.Implies(t >= mx_eff, z3.Not(cont)), assume, replay, key=kmax)
     c.prove("t >= total steps (>= min_steps) => stop", z3.Implies(z3.And(t >= T, mn_eff <= T), z3.Not(cont)), assume, replay, key=f"detector:total-steps:{tag}")
@@ -372,8 +373,8 @@ def _detector(c, case):
     # vacuity twins on guided sub-domains (existence claims: restricting the trace is sound and keeps z3 away from a
     # free search through the sqrt terms): a non-periodic trace keeps running, an exactly periodic one has converged
     periodic = [thr == 1] + [R[i, 0] == Fraction((i % spp) * (i % spp) + 1, 4) for i in range(T)]
-    c.witness("twin: continues between min and max (non-periodic trace)", z3.And(t >= mn_eff, t < mx_eff, t < T, cont), assume + guide)
-    c.witness("twin: stops between min and max (periodic trace has converged)", z3.And(t >= mn_eff, t < mx_eff, t < T, z3.Not(cont)), assume + periodic)
+    c.witness("twin: continues between min and max (non-periodic trace)", z3.And(t >= mn_eff, t < mx_eff, t < T, cont), assume + guide + [t == need + 1])
+    c.witness("twin: stops between min and max (periodic trace has converged)", z3.And(t >= mn_eff, t < mx_eff, t < T, z3.Not(cont)), assume + periodic + [t == need + 1])
     if spp == 2:
         # value of the convergence test (spp = 2: every rfft bin is real, the distance has no inner sqrt; spp = 4 was tried: z3 'unknown'), per query time (t substituted into the one symbolic-time interpretation)
         Rf = R[:, 0]
